@@ -316,7 +316,7 @@ def c2g_cases(rng, mult):
     return out
 
 
-NMAP_BAD_EL = ['', ' 1', '1 ', '+1', '1_0', '01', '0x1', '*', '1-2-3', 'a', '1--5', '--', '-1-', '3-2', '1-300', '256',
+NMAP_BAD_EL = ['7' + '3' * 4300, '1-7' + '3' * 4300, '', ' 1', '1 ', '+1', '1_0', '01', '0x1', '*', '1-2-3', 'a', '1--5', '--', '-1-', '3-2', '1-300', '256',
                '300', '-256', '256-', '255-0', '00', '-0', '0-', '1- 2', ' 1-2', '+1-+2', '1_0-1_1', '-', '-+5', '1-2_0']
 
 
@@ -473,6 +473,12 @@ def generate(rng, tier):
     for s in reps:
         for e in all_edits(s):
             add_glob(e)
+    # numerals beyond the interpreter's int-from-str digit limit (4300): plain runs of digits that int() refuses with
+    # ValueError - not a glob, and the converters say AddrFormatError like for any other malformed text
+    for n in (4300, 4301, rng.choice([5000, 6000])):
+        long_ = rng.choice('123456789') + ''.join(rng.choice('0123456789') for _ in range(n - 1))
+        for t in ('1.2.3.%s', '%s.2.3.4', '1.2.3.4-%s', '1.2.3.%s-5', '1.2.%s.*', '1.2.3.%s-%s'):
+            add_glob(t.replace('%s', long_))
     # octets from the literals of the current source
     lits = [v for v in harvest_literals() if v <= 300]
     for _ in range(300 * mult):
